@@ -159,6 +159,7 @@ func c02Labels(d vttDoc, r *vttRendering) (bool, []string) {
 
 func TestC02(t *testing.T) {
 	runWitnesses(t, "C02")
+	cliConvertCases(t, "C02", "vtt")
 	rapidCheck(t, "C02/read", tier(3000, 300000), func(rt *rapid.T) {
 		c := c02ReadCase{Doc: genVTTDoc(rt, false), Rend: genVTTRendering(rt)}
 		if len(c.Doc.Cues) > 0 && rapid.IntRange(0, 24).Draw(rt, "huge") == 1 {
